@@ -6,6 +6,15 @@ NOTES = ('Static analysis only: every verdict is computed from the ast of /repo/
          'Exit 2 + ANALYSIS-ERROR means the analysis could not decide (never a verdict).')
 
 CHECKS = {
+    'C03': {
+        'level': 'Jacobian difference quotients: one-coordinate perturbation and Taylor signature of the paired scalar rule (exact on affine '
+                 'maps) for all configuration classes, end-to-end runs in 2 variables; shape / axis bookkeeping of _expand_steps, _vstack and '
+                 'the final reshape over the full case table (len(x) 1..3 x output shapes (), (m,), (m,k)) in the data-dependence domain; '
+                 'Gradient ravel/squeeze; directionaldiff normalisation. Accuracy on nonlinear maps is not decided.',
+        'note': 'Trusted: abstract interpreter, numpy shape-operation summaries. Shape cases are concretised to dimensions 1..3 (branches in the code '
+                'depend only on "== 1" vs ">= 2").',
+        'technique': 'abstract interpretation: stencil/Taylor-signature domain for the quotients, data-dependence domain with concrete shapes for axis roles',
+    },
     'C02': {
         'level': 'The self-consistency clauses of the full_output record (f_value == f(x), error_estimate >= 0, final_step one of the '
                  'generated steps, one entry per result entry, field order) are decided on every path of abstract runs of __call__ of the '
